@@ -183,6 +183,16 @@ def run_case(case) -> Result:
     if cls != "HMA" and not viol:
         lo_all = hi_all = None
         for i, g in enumerate(got):
+            if cls == "VWMA" and g is not None and ref[i] is ANY:
+                # no volume in the window: the weighted mean is 0/0, but whatever is reported instead still has to
+                # lie within the closes it averages (one rounding of slack)
+                w = [t for t in xs[max(0, i - p + 1) : i + 1] if t is not None]
+                slack = 0.5 * 10.0**-r * 1.001 + 1e-9 * max(abs(min(w)), abs(max(w)))
+                if not (min(w) - slack <= g <= max(w) + slack):
+                    viol.append(Violation("average-outside-input-range", "reading", f"index {i}: {g!r} not within [{min(w)}, {max(w)}] (window without volume)"))
+                    break
+                stats["volumeless_windows"] = stats.get("volumeless_windows", 0) + 1
+                continue
             if g is None or ref[i] is None or ref[i] is ANY or ref[i].e == INF:
                 continue
             if cls in ("EMA", "RMA"):
